@@ -337,6 +337,17 @@ def check_roundtrip(m, raw, case, cfg, fails, label, blob):
     except Exception as ex:
         fails.append('from_blob (%s) raised %s: %s' % (label, type(ex).__name__, str(ex)[:80]))
         return
+    if isinstance(blob, (bytes, bytearray)):
+        # the same export handed over in a bytearray (filled by readinto / recv_into): the import reads it, it does not consume it
+        buf = bytearray(blob)
+        try:
+            m3 = pgpy.PGPMessage.from_blob(buf)
+            if bytes(buf) != bytes(blob):
+                fails.append('%s import from a bytearray changed the caller\'s buffer: %d of %d octets are left' % (label, len(buf), len(blob)))
+            elif bytes(m3) != bytes(m2):
+                fails.append('%s import from a bytearray exports other octets than the import from bytes' % label)
+        except Exception as ex:
+            fails.append('from_blob (%s, bytearray) raised %s: %s' % (label, type(ex).__name__, str(ex)[:80]))
     a, b = facts(m), facts(m2)
     for f in a:
         if a[f] != b[f]:
